@@ -561,6 +561,18 @@ _ADD17 = {
     "C19": " Messages of 65537..131073 bytes.",
     "C20": " An early-hints middleware (103) between two distinct log middlewares, the inner one's records tagged.",
 }
+_ADD18 = {
+    "C04": " The caller zeroes the Allowed list of every *LengthError it receives; canonical names must still decode afterwards.",
+    "C06": " A sweep covers every value of the leading IPv6 hextet with six second hextets and four tails.",
+    "C08": " Near-miss queries of every stored name (a trailing dot more or less, a leading dot, surrounding blanks) must find exactly what is stored under that other name.",
+    "C14": " URL hosts include the scheme's default port written out, also on IPv6 literals whose last group looks like a port.",
+    "C17": " The panic kind may have goroutines waiting in Get(k) when the constructor of k panics once, and one more Get(k) afterwards: at most one construction of k may complete and returning callers must agree.",
+    "C18": " Shutdown of the refresh worker is called with value, deadline and cancellable contexts.",
+    "C20": " Script steps move the base logger's minimum level while requests are parked; started / finished are expected according to the level at the request's start / finish.",
+}
+for _pid, _lt in _ADD18.items():
+    PROPS[_pid]["level_text"] += _lt
+
 for _pid, _lt in _ADD17.items():
     PROPS[_pid]["level_text"] += _lt
 
